@@ -241,6 +241,8 @@ type verifC03Edge struct {
 	stored   uint32 // hash column of the edges row == NodeEdge.Hash reported by getNodes
 	own      uint32 // XOR of my CRC over node points and edge points read back with getNodes
 	expected uint32 // own ^ XOR of the STORED hashes of all child edges (what verifyNodeHashes compares)
+	calc     uint32 // NodeEdge.CalcHash over the children getNodes reports (the store's own verification)
+	calcDone bool
 	deep     uint32 // own ^ XOR of the RECOMPUTED (deep) hashes of all child edges (from-scratch Merkle)
 	deepDone bool
 }
@@ -345,6 +347,12 @@ func verifC03Snapshot(sdb *DbSqlite) (*verifC03Snap, error) {
 				own ^= verifC03CRC(p)
 			}
 			e.own = own
+			// what the store's own verification (verifyNodeHashes) computes for this placement
+			kids, err := sdb.getNodes(nil, ne.ID, "all", "", true)
+			if err != nil {
+				return nil, err
+			}
+			e.calc, e.calcDone = ne.CalcHash(kids), true
 		}
 	}
 	if seen != len(all) && s.fault == "" {
@@ -378,6 +386,9 @@ func verifC03Snapshot(sdb *DbSqlite) (*verifC03Snap, error) {
 			h ^= c.stored
 		}
 		e.expected = h
+		if e.calcDone && e.calc != e.expected && s.fault == "" {
+			s.fault = "NodeEdge.CalcHash differs from the documented definition (XOR of point CRCs and child hashes)"
+		}
 		deep(e, 0)
 	}
 	return s, nil
